@@ -93,7 +93,10 @@ def generator_plan(tier, seed):
             ("trs", dict(MeshIds={1, 2}, MatIds={0}, InstCounts={0, 1}, TrsKinds={0, 1, 2}, MaxModels=2, MaxLights=0), None),
             ("dedup", dict(MeshIds={1, 7}, MatIds=ALL_MATS, InstCounts={0}, TrsKinds={0}, MaxModels=2, MaxLights=0), None),
             ("width", dict(MeshIds={1, 8, 9}, MatIds={0}, InstCounts={0}, TrsKinds={0}, MaxModels=2, MaxLights=0), None),
-            ("walks", dict(MeshIds={1, 2, 3, 4, 5, 6, 7}, MatIds=ALL_MATS, InstCounts={0, 1, 2}, TrsKinds={0, 1, 2}, MaxModels=4,
+            # Round 2: meshes 10..15 carry NaN / Inf / -0 / float32-limit values (every ordered pair with each other and mesh 1)
+            ("special", dict(MeshIds={1, 10, 11, 12, 13, 14, 15}, MatIds={0}, InstCounts={0}, TrsKinds={0}, MaxModels=2, MaxLights=0),
+             None),
+            ("walks", dict(MeshIds={1, 2, 3, 4, 5, 6, 7, 10, 13}, MatIds=ALL_MATS, InstCounts={0, 1, 2}, TrsKinds={0, 1, 2}, MaxModels=4,
                            MaxLights=2), dict(num=40, depth=8)),
         ]
     return [
@@ -103,7 +106,10 @@ def generator_plan(tier, seed):
         ("dedup", dict(MeshIds={1, 7}, MatIds=ALL_MATS, InstCounts={0}, TrsKinds={0}, MaxModels=2, MaxLights=0), None),
         ("dedup3", dict(MeshIds={1}, MatIds=ALL_MATS, InstCounts={0}, TrsKinds={0}, MaxModels=3, MaxLights=0), None),
         ("width", dict(MeshIds={1, 2, 8, 9}, MatIds={0, 1}, InstCounts={0, 1}, TrsKinds={0}, MaxModels=2, MaxLights=0), None),
-        ("walks", dict(MeshIds={1, 2, 3, 4, 5, 6, 7}, MatIds=ALL_MATS, InstCounts={0, 1, 2, 3}, TrsKinds={0, 1, 2}, MaxModels=6,
+        ("special", dict(MeshIds={1, 2, 10, 11, 12, 13, 14, 15}, MatIds={0, 1}, InstCounts={0, 1}, TrsKinds={0}, MaxModels=2,
+                         MaxLights=0), None),
+        ("special3", dict(MeshIds={1, 10, 13, 14, 15}, MatIds={0}, InstCounts={0}, TrsKinds={0}, MaxModels=3, MaxLights=0), None),
+        ("walks", dict(MeshIds={1, 2, 3, 4, 5, 6, 7, 10, 13, 15}, MatIds=ALL_MATS, InstCounts={0, 1, 2, 3}, TrsKinds={0, 1, 2}, MaxModels=6,
                        MaxLights=2), dict(num=1200, depth=10)),
     ]
 
@@ -144,6 +150,10 @@ def generate_cases(ctx, notes):
             seen.add(key)
             v["tag"] = "l2-" + name
             v["risk"] = sorted(v.get("risk", []))
+            # every tenth scene is also written a second time from the same objects (harness: Container)
+            k = (len(cases) + ctx.seed) % 20
+            if k in (0, 10):
+                v["kinds"] = ["glb", "text", "glb-again" if k == 0 else "text-again"]
             cases.append(v)
             n += 1
         per[name] = n
@@ -157,12 +167,14 @@ def generate_cases(ctx, notes):
 
 def random_cases(ctx, vh, notes):
     d = ctx.scratch("rnd")
+    # nsp: scenes with special IEEE values; mid: power-of-two-ish mesh sizes (quick: 2 of the 11, rotated by the seed)
     if ctx.tier == "quick":
-        n, maxv, big = 350, 12, 4
+        n, maxv, big, nsp, mid = 350, 12, 4, 70, 2
     else:
-        n, maxv, big = 9000, 40, 15
+        n, maxv, big, nsp, mid = 9000, 40, 15, 1500, 11
     p = os.path.join(d, "r.ndjson")
-    core.run_vh(vh, ["gltf-random", "-out", p, "-seed", str(ctx.seed), "-n", str(n), "-maxv", str(maxv), "-big", str(big)])
+    core.run_vh(vh, ["gltf-random", "-out", p, "-seed", str(ctx.seed), "-n", str(n), "-maxv", str(maxv), "-big", str(big),
+                     "-special", str(nsp), "-mid", str(mid)])
     cases = core.read_ndjson(p)
     notes["random_scenes"] = len(cases)
     return cases
@@ -216,7 +228,7 @@ def execute_and_judge(ctx, vh, cases, name="main", batch=4000):
             for e in v["ex"]:
                 ex[e] = ex.get(e, 0) + 1
             head = json.loads(raw[i][:raw[i].index(',"src"')] + "}")
-            if head["tag"].startswith("l2-"):
+            if head["tag"].startswith("l2-") and "nonfinite-refused" not in v["ex"]:    # a refused scene has no file to be aligned
                 predicted = "L2Aligned" in part[head["c"]].get("risk", [])
                 agree[0 if predicted == ("C06.Aligned" in v["bad"]) else 1] += 1
             if not v["bad"]:
@@ -236,12 +248,16 @@ def execute_and_judge(ctx, vh, cases, name="main", batch=4000):
     return findings, ex, nlines
 
 
-REQUIRED = ["glb", "text", "multi-model", "empty-model-skipped", "mesh-pointer-shared", "mesh-shared-other-material",
+REQUIRED = ["glb", "text", "glb-again", "text-again", "multi-model", "empty-model-skipped", "mesh-pointer-shared", "mesh-shared-other-material",
             "material-pointer-shared", "material-value-duplicate", "materials-distinct", "texture-value-duplicate",
             "texture-collapsed", "textured-material", "instances", "lights", "trs", "point-topology", "triangle-topology",
             "scalar-attribute", "joint-bytes", "custom-attribute", "big-mesh", "nv=65535", "nv=65536", "non-identity-indices",
             "minmax-declared", "minmax-not-float32-representable", "index-u16", "index-u32", "ubyte-accessor",
-            "material-extension", "texture-transform", "extension-required", "odd-u16-index-view", "bin-chunk-padded", "no-buffer"]
+            "material-extension", "texture-transform", "extension-required", "odd-u16-index-view", "bin-chunk-padded", "no-buffer",
+            # Round 2: special IEEE values really reached the payload and were judged there
+            "nonfinite-source", "nonfinite-written", "nan-stored-vec2", "nan-stored-vec3", "nan-stored-big",
+            "minmax-with-nan-judged", "minmax-all-nan-component", "inf-stored", "negative-zero-stored", "subnormal-stored",
+            "max-float32-stored"]
 
 
 def shrink(case, kind):
@@ -362,6 +378,7 @@ def _corruptions():
                     n = ln["out"]["accs"][p["attrs"][0]["acc"]]["count"]
                     ia["vals"][0][0] = n
                     ia["sum"]["max"][0] = max(ia["sum"]["max"][0], n)
+                    ia["sum"]["emax"][0] = ia["sum"]["max"][0]
                     return True
         return False
 
@@ -381,7 +398,81 @@ def _corruptions():
                 return True
         return False
 
+    def is_nan(b):
+        return (b & 0x7F800000) == 0x7F800000 and (b & 0x007FFFFF) != 0
+
+    def short_payload(ln):
+        # what a writer that counts an element it did not append produces: fewer bytes than byteLength
+        for b in ln["out"]["buffers"]:
+            if b["payload"] >= b["len"] >= 8:
+                b["payload"] = b["len"] - 8
+                return True
+        return False
+
+    def nan_accessors(ln):
+        o = ln["out"]
+        for m in o["meshes"]:
+            p = m["prims"][0]
+            if p["idx"] < 0 or not o["accs"][p["idx"]]["full"]:
+                continue
+            referenced = {v[0] for v in o["accs"][p["idx"]]["vals"]}
+            for at in p["attrs"]:
+                a = o["accs"][at["acc"]]
+                if a["comp"] == 5126 and a["full"]:
+                    yield a, referenced
+
+    def resum(a):
+        # keep the harness summaries of the corrupted accessor consistent: the self-test is about the property
+        # predicates, Harness.Decode would stop the judge before them
+        def key(b):
+            return b if b >= 0 else -(b + 2147483647) - 1
+        nc = len(a["vals"][0])
+        clean = [row for row in a["vals"] if not any(is_nan(b) for b in row)]
+        a["sum"]["enan"] = len(a["vals"]) - len(clean)
+        for c in range(nc):
+            good = [row[c] for row in a["vals"] if not is_nan(row[c])]
+            a["sum"]["nan"][c] = len(a["vals"]) - len(good)
+            a["sum"]["min"][c] = min(good, key=key) if good else 0
+            a["sum"]["max"][c] = max(good, key=key) if good else 0
+            a["sum"]["emin"][c] = min((r[c] for r in clean), key=key) if clean else 0
+            a["sum"]["emax"][c] = max((r[c] for r in clean), key=key) if clean else 0
+
+    def nan_to_number(ln):
+        for a, referenced in nan_accessors(ln):
+            for i, row in enumerate(a["vals"]):
+                for c, b in enumerate(row):
+                    if i in referenced and is_nan(b):
+                        row[c] = 0
+                        resum(a)
+                        return True
+        return False
+
+    def number_to_nan(ln):
+        for a, referenced in nan_accessors(ln):
+            for i, row in enumerate(a["vals"]):
+                if i in referenced and not any(is_nan(b) for b in row):
+                    row[0] = 0x7FC00000
+                    resum(a)
+                    return True
+        return False
+
+    def nan_bound(ln):
+        # the declared maximum of a component that holds NaNs AND numbers
+        for a, _ in nan_accessors(ln):
+            if not a["hasMax"]:
+                continue
+            for c in range(len(a["max"])):
+                col = [row[c] for row in a["vals"]]
+                if any(is_nan(b) for b in col) and any(not is_nan(b) for b in col) and 0 <= a["max"][c] < 0x7F000000:
+                    a["max"][c] += 1
+                    return True
+        return False
+
     return [
+        ("payload shorter than byteLength", short_payload, {"C06.BufferPayload"}),
+        ("stored NaN replaced by a number", nan_to_number, {"C06.AttrData"}),
+        ("stored number replaced by a NaN", number_to_nan, {"C06.AttrData"}),
+        ("declared maximum of a component holding NaNs", nan_bound, {"C06.MinMax"}),
         ("decoded accessor element", acc_val, {"C06.AttrData", "C06.Instances"}),
         ("buffer view offset", view_off, {"C06.Aligned"}),
         ("declared minimum", decl_min, {"C06.MinMax"}),
@@ -398,7 +489,8 @@ def _corruptions():
 def self_test(ctx, vh, notes):
     d = ctx.scratch("selftest")
     p = os.path.join(d, "r.ndjson")
-    core.run_vh(vh, ["gltf-random", "-out", p, "-seed", str(ctx.seed + 1000), "-n", "150", "-maxv", "8", "-big", "0"])
+    core.run_vh(vh, ["gltf-random", "-out", p, "-seed", str(ctx.seed + 1000), "-n", "150", "-maxv", "8", "-big", "0",
+                     "-special", "80"])
     tp = os.path.join(d, "trace.ndjson")
     core.run_vh(vh, ["gltf-exec", "-in", p, "-out", tp])
     with open(tp) as f:
@@ -451,7 +543,9 @@ def run(ctx):
     ctx.extra["rejections_by_signature"] = by_pred
     ctx.rule = ("a case is a scene (models over pools of mesh / material / texture objects, TRS, GPU instances, lights) written "
                 "by the real code once as .glb and once as .gltf; scenes come from TLC (BFS / -simulate of the GltfWriter model) "
-                "and from the seeded generator (larger meshes, arbitrary doubles, 65 535 / 65 536 vertices); distinct by "
+                "and from the seeded generator (larger meshes, arbitrary doubles, 65 535 / 65 536 vertices, power-of-two sizes); "
+                "some meshes / GPU instances carry special IEEE values (NaN, +-Inf, -0, subnormal, float32 limits and beyond); "
+                "every 10th / 4th scene is also written a second time from the same objects; distinct by "
                 "(models, lights, pools); non-trivial if it has >= 2 live models or instances, lights, a material")
     ctx.nontrivial = len({json.dumps(c, sort_keys=True) for c in cases
                           if len(c["models"]) >= 2 or c["lights"] or any(m["mat"] or m["inst"] for m in c["models"])})
@@ -467,7 +561,9 @@ def run(ctx):
     ctx.extra["not_exercised"] = missing
     ctx.assumptions += [
         "the independent reader (harness/gltffam/parse.go) and the source projection (srcproj.go) are faithful",
-        "float32 images are compared on IEEE bit patterns; declared min/max are rounded to float32 as glTF 2.0 prescribes",
+        "float32 images are compared on IEEE bit patterns (any NaN equals any NaN); declared min/max are rounded to float32 as "
+        "glTF 2.0 prescribes and are per-component bounds of the stored values that are numbers",
+        "a returned error is an allowed outcome only for a scene holding a NaN / +-Inf (no glTF document can carry it)",
         "mesh nodes of the default scene are matched to non-empty models by order",
         "material colours are judged within the writer's documented 3-decimal rounding (1/2000)",
         "TLC evaluates GltfDoc / TraceGltf correctly",
